@@ -7,6 +7,7 @@
      eq      what  println(c == <reflit>)  printed ("true"/"false"/"")
      hasv,v  var v <vt> = c; println(v)  re-chunked as a BigInt
      dtobs   dynamic type of  var i interface{} = c
+     ikobs   what  println(((c - c) + 1) / 2 == 0)  printed: "true" iff c has an integer kind/type
      kids    the same observation fields for the non-leaf operands of a depth-2 expression (each observed as a
              constant of its own); used only to attribute a failure to the operand that already fails
 
@@ -24,8 +25,9 @@
    Readings chosen (DESIGN Appendix C.5):
    - "the same value" includes the constant's kind: an untyped constant's kind decides its default type and the
      arithmetic of every expression it is used in ((1.0 << 3) / 16 is 0 in Go, 0.5 if the shift result stays a
-     float), so the default type observed through interface{} is judged ("type"); it is only observed when the
-     reference says the constant is representable in its default type.
+     float), so the default type observed through interface{} is judged ("type"; only observed when the reference
+     says the constant is representable in its default type), and so is integer-ness observed through
+     ((c - c) + 1) / 2 == 0, which needs no representability.
    - the observing program (c == literal, var v T = c, type switch) is valid Go whenever the reference accepts the
      expression; if scriggo cannot build or run it the value is unusable ("value-unusable").
    - limits: integer results beyond 512 bits are rejections (gc, go/types and scriggo share the limit); everything
@@ -37,11 +39,13 @@ Bound(r, ref) == /\ r.src = Show(r.expr)
                  /\ r.reflit = RefLit(ref)
                  /\ r.vt = PrintType(ref)
                  /\ r.dt = (IF DynObservable(ref) THEN 1 ELSE 0)
+                 /\ r.ik = (IF KindObservable(ref) THEN 1 ELSE 0)
 ValueOk(r, ref) ==
   ~ref.chk \/
   /\ (r.reflit # <<>> => (r.chk = "ran" /\ r.eq = "true"))
   /\ (r.vt # "" => (r.chk = "ran" /\ r.hasv = 1 /\ r.v = IntOf(ref.v)))
   /\ (r.dt = 1 => (r.chk = "ran" /\ r.dtobs = DefaultType(ref.ty)))
+  /\ (r.ik = 1 => (r.chk = "ran" /\ r.ikobs = (IF TClass(ref.ty) = "int" THEN "true" ELSE "false")))
 \* which clause failed: "" = none
 Fail2(r, ref) ==
   IF ref.st = "any" THEN ""                                             \* not decided by the reference: skipped
@@ -95,6 +99,7 @@ Sig1(r) == LET t == r.expr ref == Ref(r)
             root |-> IF t.k = "lit" THEN "lit" ELSE IF t.k = "conv" THEN "conv" ELSE IF t.k = "un" THEN (IF t.op = "-" THEN "neg" ELSE IF t.op = "+" THEN "pos" ELSE IF t.op = "^" THEN "cpl" ELSE "not") ELSE OpName(t.op),
             to |-> IF t.k = "conv" THEN Coarse(t.ty) ELSE "-",
             ka |-> ka, kb |-> kb,
+            na |-> IF t.k = "lit" THEN "-" ELSE t.a.k, nb |-> IF t.k = "bin" THEN t.b.k ELSE "-",
             xf64 |-> IF LitOff(t) \/ RefOff(ref) THEN 1 ELSE 0,
             xprec |-> IF t.k # "lit" /\ (OperandNeedsRound(t.a) \/ (t.k = "bin" /\ OperandNeedsRound(t.b))) THEN 1 ELSE 0]
 \* a failing expression one of whose operands already fails on its own is attributed to that operand
